@@ -18,3 +18,7 @@ def check(rep, tier):
     from contracts import containers, diffops
     rep.run(containers.run_ground, rep, tier)     # accumulation of container-valued cotangents (leaf-wise, first argument only)
     rep.run(diffops.run_ops, rep, tier)           # second-order operators: the outer derivative is taken wrt the SAME argument
+    from contracts import rules_numeric as _rn3
+    rep.run(_rn3.run, rep, tier, clauses=('N-reuse', 'N-frozen'))     # the recorded graph evaluated backwards a second time
+    from contracts import rules_exact as _rx
+    rep.run(_rx.run, rep, tier, ('X-reuse', 'X-frozen'))
